@@ -144,6 +144,7 @@ type c17Reg struct {
 
 type c17Party struct {
 	name    string
+	ln      *test.MockLightning
 	nodeKey *btcec.PublicKey
 	node33  [33]byte
 	wallet  *c17Wallet
@@ -167,12 +168,13 @@ func c17NewParty(name string, seed byte, db *clientdb.DB) *c17Party {
 	p.wallet = &c17Wallet{MockWalletKit: test.NewMockWalletKit(), seed: seed}
 	p.base = &c17Base{}
 	p.acc = pool.NewChannelAcceptor(nil)
+	p.ln = test.NewMockLightning()
 	p.mgr = funding.NewManager(&funding.ManagerConfig{
 		DB:               db,
 		WalletKit:        p.wallet,
-		LightningClient:  test.NewMockLightning(),
+		LightningClient:  p.ln,
 		BaseClient:       p.base,
-		SignerClient:     test.NewMockSigner(),
+		SignerClient:     &c17Signer{MockSigner: test.NewMockSigner()},
 		NodePubKey:       p.nodeKey,
 		BatchStepTimeout: order.DefaultBatchStepTimeout,
 		NotifyShimCreated: func(bid *order.Bid, pid [32]byte) {
@@ -537,13 +539,19 @@ func (f *c17Funding) exec(c *c17PairCase) {
 		if !sc.SelfRecv {
 			taker = f.recv
 		}
+		// the offer is made (and signed) by the provider's real OfferSidecar
 		var err error
-		ticket, err = sidecar.NewTicket(btcutil.Amount(sc.OfferCap), btcutil.Amount(sc.OfferPush), sc.OfferLease,
-			f.acctKey, false, sc.OfferUnann, sc.OfferZC)
+		tpl := &order.Bid{UnannouncedChannel: sc.OfferUnann, ZeroConfChannel: sc.OfferZC}
+		ticket, err = f.bidder.mgr.OfferSidecar(context.Background(), btcutil.Amount(sc.OfferCap),
+			btcutil.Amount(sc.OfferPush), sc.OfferLease, f.acct.TraderKey, tpl, false)
+		r.Emit("C17 offer "+c17FmtTicket(&sidecar.Ticket{Offer: sidecar.Offer{Capacity: btcutil.Amount(sc.OfferCap),
+			PushAmt: btcutil.Amount(sc.OfferPush), LeaseDurationBlocks: sc.OfferLease,
+			UnannouncedChannel: sc.OfferUnann, ZeroConfChannel: sc.OfferZC}}), "offer="+c17b(err == nil))
 		if err != nil {
-			panic(err)
+			r.Count("sidecar/offer-rejected")
+			return
 		}
-		ticket.Offer.SigOfferDigest = test.NewSignatureFromInt(3, 5)
+		ticket.Order = nil
 		ticket.State = sidecar.StateRegistered
 		ticket.Recipient = &sidecar.Recipient{
 			NodePubKey:       taker.nodeKey,
